@@ -53,4 +53,16 @@ func init() {
 		Gen: genC16, Exec: execC16,
 		Assumes: []string{"expected counts come from the generator's knowledge of loop lengths and conditions, not from vuego", "v-once on an element that also carries v-for counts loop iterations as instantiations of the same element"},
 	})
+	register(&Driver{
+		ID: "C17", Level: "exploration",
+		Rule: "one run = one seeded operation stream (10-60 operations quick, 10-160 thorough) over 1-4 stacks plus their copies, root data map / struct / pointer / nil / struct with its JSON-tag map, a 10-name universe including a Go field name and an unexported field; operations Push(nil), Push(map), Pop, Set, Lookup, Resolve (map/slice paths, fresh paths), EnvMap, Copy, ForEach with nested Push/Set/Pop, GetString, GetInt, and the caller re-using a map it pushed earlier; scope maps travel between stacks through the simulated pool (lifo/fifo/random, drops, poison on Put), path cache empty / nearly full / saturated; after every operation every stack is compared with a reference model (slice of plain maps + root value) for every name, and EnvMap with Lookup; distinct = distinct (operation kinds, root shapes, pool configurations, recycled-map-reused probe)",
+		Runs: func(tier string) int {
+			if tier == "thorough" {
+				return 100000
+			}
+			return 4000
+		},
+		Gen: genC17, Exec: execC17,
+		Assumes: []string{"only the scope-stack half of C17 is claimed; path resolution through structs/arrays/pointers (a pure function) is not", "values agree when equal up to representation (a struct and its JSON-tag map)"},
+	})
 }
